@@ -413,10 +413,18 @@ func (p *PtrVal) NonNil() Term {
 
 // NewRef allocates a fresh object identity.
 func (u *Unit) NewRef(s *State, what string) Term {
+	return u.NewRefTyped(s, what, 0)
+}
+
+// NewRefTyped: tid is the struct type id of the new object (0: not a struct object — slice backing, map, chan, cell).
+func (u *Unit) NewRefTyped(s *State, what string, tid int) Term {
 	r := u.Fresh("new."+what, SInt)
 	u.Assume(Eq(r, Add(s.Alloc, IntLit(1))))
 	u.Assume(Eq(App("root", SInt, r), r))
 	u.Assume(Eq(App("kind", SInt, r), IntLit(0)))
+	// (on different paths the same identity number can be handed to objects of different types: the type tag is a fact
+	// of this path only)
+	u.Assume(Implies(s.PC, Eq(App("dyn", SInt, r), IntLit(int64(tid)))))
 	s.Alloc = r
 	return r
 }
@@ -439,6 +447,11 @@ func (u *Unit) assumeValExisting(s *State, v Val) {
 				continue
 			}
 			u.AssumeExisting(s, v.S[i])
+			if tid, ok := dynOfSlot(sl); ok {
+				// a non-nil value of static type *T is a T object; slice backings, maps, channels, cells are not struct objects
+				// (a fact of the paths on which this state exists: identity numbers are reused across exclusive paths)
+				u.Assume(Implies(s.PC, Or(Eq(v.S[i], IntLit(0)), And(Eq(App("dyn", SInt, v.S[i]), IntLit(int64(tid))), Ge(App("root", SInt, v.S[i]), IntLit(1))))))
+			}
 		}
 	}
 }
